@@ -865,12 +865,81 @@ def rule_nullable_table_strings(prog, fixture=False):
     return r
 
 
+# ---------------------------------------------------------------- R-C08-11
+def rule_self_referential_not_copied(prog, fixture=False):
+    r = RuleResult("R-C08-11", "a record that holds pointers into itself (a function stores the address of one member of *p "
+                   "in another member of the same *p) is never copied by value: the copy's pointers still aim at the "
+                   "original, which may be a dead stack frame", floor=0 if fixture else 1)
+
+    def rtype(t):
+        return notpl((t or "").replace("const ", "").replace("struct ", "").replace("*", "").replace("&", "").strip())
+
+    def root_ptr(e):
+        """DeclRefExpr p when e is p->a, p->a[i], p->a.b ... (through arrows and subscripts), else None."""
+        e = strip_all(e)
+        for _ in range(6):
+            if e is None:
+                return None
+            if e.get("k") == "ArraySubscriptExpr":
+                e = strip_all(e["c"][0])
+            elif e.get("k") == "MemberExpr" and e.get("c"):
+                b = strip_all(e["c"][0])
+                if e.get("arrow") and b is not None and b.get("k") == "DeclRefExpr":
+                    return b
+                e = b
+            else:
+                return None
+        return None
+    selfref = {}
+    for fn in prog.functions.values():
+        for n in fn.walk():
+            if n.get("k") != "BinaryOperator" or n.get("op") != "=":
+                continue
+            lp = root_ptr(n["c"][0])
+            if lp is None:
+                continue
+            rhs = strip_all(n["c"][1])
+            if rhs is not None and rhs.get("k") == "UnaryOperator" and rhs.get("op") == "&":
+                rhs = strip_all(rhs["c"][0])
+            rt = n["c"][1].get("t") or (strip(n["c"][1]) or {}).get("t") or ""
+            rp = root_ptr(rhs)
+            if rp is not None and rp.get("d") == lp.get("d") and "*" in rt:
+                selfref.setdefault(rtype(lp.get("t") or lp.get("ct")), (fn, n))
+    r.info["self_referential_records"] = sorted(selfref)
+    for rec, (wf, wn) in selfref.items():
+        copies = []
+        for fn in prog.functions.values():
+            for n in fn.walk():
+                t = None
+                if n.get("k") == "BinaryOperator" and n.get("op") == "=":
+                    t = (strip_all(n["c"][0]) or {}).get("t") or (strip_all(n["c"][0]) or {}).get("ct")
+                elif n.get("k") == "VarDecl" and n.get("c") and (strip_all(n["c"][0]) or {}).get("k") != "InitListExpr":
+                    t = n.get("t") or n.get("ct")
+                elif n.get("k") == "ReturnStmt" and n.get("c"):
+                    t = (strip(n["c"][0]) or {}).get("t")
+                if t is not None and "*" not in t and "&" not in t and "[" not in t and rtype(t) == rec:
+                    copies.append((fn, n))
+                if n.get("k") == "CallExpr":
+                    for a in call_args(n):
+                        at = (strip(a) or {}).get("t") or ""
+                        if "*" not in at and "[" not in at and rtype(at) == rec:
+                            copies.append((fn, a))
+        key = "record %s::copied-by-value" % rec
+        if copies:
+            f, n = copies[0]
+            r.add(key, f.loc(n), False, "`%s` copies a %s by value, but %s (%s) stores pointers to the record's own members in it: "
+                  "the copy refers to the original's storage" % (show(n)[:50], rec, wf.qn, wf.loc(wn)))
+        else:
+            r.add(key, wf.loc(wn), True, "%s points into itself (set up by %s) and is only ever passed by address" % (rec, wf.qn))
+    return r
+
+
 def run(ctx):
     prog = ctx.prog("basic", "N")
     res = [c19.rule_uninit(ctx, ["basic"], rule_id="R-C08-1"),
            rule_option_tables(prog), rule_exit_status(prog), rule_diagnosed_failures(prog), rule_longindex(prog),
            rule_cursor_discipline(prog), rule_index_ranges(prog), rule_resource_typestate(prog), rule_tables_filled(prog),
-           rule_nullable_table_strings(prog)]
+           rule_nullable_table_strings(prog), rule_self_referential_not_copied(prog)]
     # the same table rule applies to dfs's global options
     dfs = ctx.prog("dfs", "N")
     r2 = rule_option_tables(dfs)
